@@ -21,6 +21,8 @@ claimed = {
          "bounds in evidence (strings <=4/5 characters over all ASCII bytes + one 2-byte rune, splitter inputs <=6/7 bytes, trees of depth 1/2); invalid UTF-8 and escapes inside statements outside"),
  "C10": ("Real kf* constructors (compile-time folding through EvalStaticStage, typed pre-parsing through evalTypedStage/mapTypedArgs), KeyBuilder.Compile with and without optimize(), kfTimeParse's live/delta handling and funcfile.LoadDefinitions/keyBuilderToFunction/lazySubContext executed symbolically: constant arguments give what the same values read from the match give; a stage reported constant has that value on every context; optimised == unoptimised; funcs-file functions == their body inline.",
          "bounds in evidence; library-backed helpers, constant-only parameters, concurrency outside; float arithmetic abstracted as uninterpreted functions"),
+ "C19": ("Real stdmath tokenizer, parser (compileTokens/getNextExpr/getNextOp/opCodeOrder), simplify and the ops/uniOps closures executed on symbolic operands and formula texts: no operator panics for any operand, the compiled tree equals the parse under the documented order of operations, literals and bound variables are interchangeable, malformed text is rejected without a crash.",
+         "bounds in evidence (formulas of 2..3/4 operands, texts <=4/5 bytes); float values of the operators not claimed"),
 }
 man = {
  "version": 1,
